@@ -144,6 +144,14 @@ fn run_generic<W: World>(spec: &ShardSpec, cur: Option<&str>, trace: Option<(u64
 /// E7: one map grown to `n` elements with the O(1) per-call monitors on every call; tombstone
 /// pattern `stride` (remove every stride-th key once the map holds it), lookups interleaved.
 pub fn run_e7(spec: &ShardSpec, cur: Option<&str>) -> Outcome {
+    match spec.ty.as_str() {
+        "tk" => run_e7_t::<Tk>(spec, cur),
+        "big" => run_e7_t::<crate::elem::Big>(spec, cur),
+        _ => run_e7_t::<u32>(spec, cur),
+    }
+}
+
+fn run_e7_t<T: crate::elem::El>(spec: &ShardSpec, cur: Option<&str>) -> Outcome {
     use crate::engine::{reset_exec, CurFile, FoundViol, PROGRESS};
     use crate::op::OpK;
     let t0 = std::time::Instant::now();
@@ -167,7 +175,10 @@ pub fn run_e7(spec: &ShardSpec, cur: Option<&str>) -> Outcome {
     let mut out = Outcome::default();
     let mut curf = CurFile::new(cur);
     reset_exec();
-    let mut w = match MapWorld::<u32>::create(&cfg) {
+    // at every resize start: take every element out of the old table again through the removal APIs
+    // (remove / remove_entry / entry removal in turn), full audit once it is empty - old tables of every size
+    let drain_old = spec.extra.get("drain_old").map_or(false, |s| s == "1");
+    let mut w = match MapWorld::<T>::create(&cfg) {
         Ok(w) => w,
         Err(v) => {
             out.violations.push(FoundViol { kind: v.kind, msg: v.msg, history: vec![], step: 0 });
@@ -182,7 +193,7 @@ pub fn run_e7(spec: &ShardSpec, cur: Option<&str>) -> Outcome {
     let mut k: u32 = 0;
     let mut fail: Option<(crate::op::Viol, Op)> = None;
     let mut fail_late: Option<crate::op::Viol> = None;
-    let mut do_op = |w: &mut MapWorld<u32>, op: Op, out: &mut Outcome, hist_tail: &mut std::collections::VecDeque<Op>| -> bool {
+    let mut do_op = |w: &mut MapWorld<T>, op: Op, out: &mut Outcome, hist_tail: &mut std::collections::VecDeque<Op>| -> bool {
         hist_tail.push_back(op);
         if hist_tail.len() > 24 {
             hist_tail.pop_front();
@@ -242,6 +253,29 @@ pub fn run_e7(spec: &ShardSpec, cur: Option<&str>) -> Outcome {
                 }
             }
             k = w.next_key;
+            since_resize = u32::MAX;
+        }
+        if drain_old && since_resize == 1 {
+            let ids = w.old_ids(&w.dump());
+            let n_old = ids.len();
+            for (j, id) in ids.into_iter().enumerate() {
+                let op = match j % 3 {
+                    0 => Op::key(OpK::Remove, id),
+                    1 => Op::key(OpK::RemoveEntry, id),
+                    _ => Op::new(OpK::EntryChain, id, crate::chain::encode(&[crate::chain::O_REMOVE])),
+                };
+                if !do_op(&mut w, op, &mut out, &mut hist_tail) {
+                    break 'grow;
+                }
+                if j + 1 == n_old || j + 2 == n_old {
+                    // one left / none left: the cursor, iteration and len must agree exactly here
+                    if let Err(v) = w.audit(true) {
+                        hist_tail.push_back(Op::arg(OpK::IterCheck, 0));
+                        fail_late = Some(v);
+                        break 'grow;
+                    }
+                }
+            }
             since_resize = u32::MAX;
         }
         if shrink_frac > 0 && since_resize == 1 {
